@@ -1,8 +1,10 @@
 #![allow(dead_code)]
+mod addr;
 mod blind;
 mod checksum;
 mod corpus;
 mod dynafed;
+mod enc;
 mod fmr;
 mod issuance;
 mod pools;
@@ -78,6 +80,8 @@ fn main() {
         ("script", "sequences") => script::sequences(rest, &mut out),
         ("script", "numbers") => script::numbers(rest, &mut out),
         ("script", "templates") => script::templates(rest, &mut out),
+        ("addr", "strings") => addr::strings(rest, &mut out),
+        ("addr", "valid") => addr::valid(rest, &mut out),
         ("dynafed", "record") => dynafed::record(rest, &mut out),
         (m, c) => {
             eprintln!("unknown command {} {}", m, c);
